@@ -99,6 +99,29 @@ def corner_models():
                                       [oh.make_tensor("starts", TP.INT64, (1,), [0]), oh.make_tensor("ends", TP.INT64, (1,), [0])]), True))
     out.append(("zero-dim-input", mk([oh.make_node("Concat", ["x", "extra"], ["y"], axis=0)], [vi("x", (2, 3)), vi("extra", (0, 3))], [vi("y", (2, 3))]), True))
     out.append(("opset13-relu", mk([oh.make_node("Relu", ["x"], ["y"])], [vi("x")], [vi("y")], opset=13), True))
+    # an initializer (dense / sparse) of the MAIN graph that only nodes inside control-flow bodies read (captured outer value), at depth 1 and 2
+    bias = numpy_helper.from_array(np.array([7, 9], F32), "Bias")
+    then_b = oh.make_graph([oh.make_node("Add", ["x", "Bias"], ["tb"])], "then", [], [vi("tb")])
+    else_b = oh.make_graph([oh.make_node("Sub", ["x", "Bias"], ["eb"])], "else", [], [vi("eb")])
+    out.append(("main-initializer-read-only-inside-branches",
+                mk([oh.make_node("If", ["c"], ["y"], then_branch=then_b, else_branch=else_b)], [vi("x"), vi("c", (), TP.BOOL)], [vi("y")], [bias]), True))
+    inner_t = oh.make_graph([oh.make_node("Mul", ["x", "Bias"], ["it"])], "it", [], [vi("it")])
+    inner_e = oh.make_graph([oh.make_node("Add", ["x", "sw"], ["ie"])], "ie", [], [vi("ie")])
+    then_n = oh.make_graph([oh.make_node("If", ["c"], ["tb"], then_branch=inner_t, else_branch=inner_e)], "then", [], [vi("tb")])
+    else_n = oh.make_graph([oh.make_node("Identity", ["x"], ["eb"])], "else", [], [vi("eb")])
+    out.append(("main-initializers-read-only-at-depth-2",
+                mk([oh.make_node("If", ["c"], ["y"], then_branch=then_n, else_branch=else_n)], [vi("x"), vi("c", (), TP.BOOL)], [vi("y")], [bias],
+                   sparse=[sparse]), True))
+    # OMITTED optional OUTPUTS (empty names) of several nodes: "" is no value at all - it is neither renamed nor shared
+    rw = numpy_helper.from_array(np.full((1, 2, 2), 0.5, F32), "RW")
+    rr = numpy_helper.from_array(np.full((1, 2, 2), 0.25, F32), "RR")
+    out.append(("two-nodes-with-an-omitted-first-output",
+                mk([oh.make_node("RNN", ["x", "RW", "RR"], ["", "h1"], hidden_size=2), oh.make_node("RNN", ["h1", "RW", "RR"], ["", "y"], hidden_size=2)],
+                   [vi("x", (3, 1, 2))], [vi("y", (1, 1, 2))], [rw, rr]), True))
+    out.append(("omitted-inner-and-trailing-outputs",
+                mk([oh.make_node("RNN", ["x", "RW", "RR"], ["", "h1"], hidden_size=2), oh.make_node("RNN", ["h1", "RW", "RR"], ["y2"], hidden_size=2),
+                    oh.make_node("RNN", ["h1", "RW", "RR", "", "", "h1"], ["", "h3"], hidden_size=2), oh.make_node("Add", ["y2", "h3"], ["y"])],
+                   [vi("x", (3, 1, 2))], [oh.make_tensor_value_info("y", TP.FLOAT, (1, 1, 1, 2))], [rw, rr]), True))
     for tag, m, _ in out:
         onnx.checker.check_model(m)
     return out
